@@ -28,6 +28,8 @@ func genC05Target(t *rapid.T, ctx *Ctx, sc *Scenario, fam int) (*c05Target, erro
 	var c *SegCase
 	var err error
 	switch fam {
+	case FamHuge:
+		c, err = GenCase(t, ctx, sc, CaseCfg{Family: FamHuge, MaxIn: 2, HoldAny: true}, rapid.SampledFrom([]int{0, 0, 0, 1}).Draw(t, "depth"), "c")
 	case FamWide:
 		c, err = GenCase(t, ctx, sc, CaseCfg{Family: FamWide, MaxIn: 2, HoldAny: true}, rapid.SampledFrom([]int{0, 0, 1}).Draw(t, "depth"), "c")
 	default:
@@ -279,7 +281,9 @@ func c05Prop(st *CaseStats, fam int) func(t *rapid.T) {
 					lo = lastTarget
 				}
 				var d uint64
-				switch rapid.IntRange(0, 9).Draw(t, "advKind") {
+				switch rapid.IntRange(0, 10).Draw(t, "advKind") {
+				case 10: // around the next 65536 boundary (next roaring container)
+					d = ((lo>>16)+1)<<16 - 1 + uint64(rapid.IntRange(0, 2).Draw(t, "containerJitter"))
 				case 0:
 					d = lo
 				case 1, 2: // exactly the next live hit, or one past it
@@ -408,4 +412,10 @@ func TestC05Wide(t *testing.T) {
 	st := NewStats("C05Wide", c05Rule)
 	defer st.Flush()
 	rapid.Check(t, c05Prop(st, FamWide))
+}
+
+func TestC05Huge(t *testing.T) {
+	st := NewStats("C05Huge", c05Rule)
+	defer st.Flush()
+	rapid.Check(t, c05Prop(st, FamHuge))
 }
